@@ -191,10 +191,13 @@ Proof. vm_compute. repeat split; reflexivity. Qed.
 Example ex_C04_stored_fetch :
   let blocks := [[(0,0,3);(0,3,6);(0,6,8)]; [(1,0,4);(1,4,8)]] in
   let px : list pixel := [((0,0),1); ((0,2),2); ((1,3),3); ((3,4),4)] in
-  exists c, Index.create_model 2 (map bchrom (table blocks)) px true = Some c /\
+  match Index.create_model 2 (map bchrom (table blocks)) px true with
+  | None => False
+  | Some c =>
     Index.valid_csr_b c = true /\ valid_blocks_b blocks = true /\ zlen (table blocks) = Index.nbins c /\
     overlap_ids blocks 0 2 7 = [0; 1; 2] /\ overlap_ids blocks 1 0 5 = [3; 4] /\
     matrix_fetch_dense blocks (epx_of (Index.pixels_of c)) (Index.bin1_offset c) 2 true (0%nat, Some 2, Some 7) (1%nat, Some 0, Some 5)
       = Some [[0; 0]; [3; 0]; [0; 0]] /\
-    pixels_fetch_stored blocks (Index.pixels_of c) (Index.bin1_offset c) (0%nat, Some 3, Some 6) = Some [((1,3),3)].
-Proof. eexists. vm_compute. repeat split; reflexivity. Qed.
+    pixels_fetch_stored blocks (Index.pixels_of c) (Index.bin1_offset c) (0%nat, Some 3, Some 6) = Some [((1,3),3)]
+  end.
+Proof. vm_compute. repeat split; reflexivity. Qed.
